@@ -31,6 +31,7 @@ type c18Caller struct {
 	failAll   bool
 	delay     time.Duration // handler duration
 	lateAfter time.Duration
+	impatient bool // SendWithReply with a context that ends before the handler can have answered
 	replies   []requestreply.Reply[c18Result]
 	chClosed  bool
 	sendErr   error
@@ -92,6 +93,7 @@ func c18Body(r *Run) {
 		}
 		c.delay = time.Duration(t.Int(3)) * 10 * time.Millisecond
 		c.lateAfter = time.Duration(100+t.Int(400)) * time.Millisecond
+		c.impatient = t.Chance(1, 3)
 		callers = append(callers, c)
 	}
 	r.Describe("%d concurrent requests on one reply topic, AckCommandErrors=%v, ListenForReplyTimeout=%v, reply publisher fails on calls %v", nCallers, ackErrors, timeout, replyPub.FailAt)
@@ -263,7 +265,13 @@ func c18Body(r *Run) {
 			cmd := &c18Cmd{Caller: c.id}
 			switch c.behaviour {
 			case 0:
-				tctx, tcancel := context.WithTimeout(ctx, 5*time.Second)
+				// (one caller in three gives up early: before the handler can have answered)
+				limit := 5 * time.Second
+				if c.impatient {
+					limit = 5 * time.Millisecond
+					r.Fault("caller-context-ends-before-reply")
+				}
+				tctx, tcancel := context.WithTimeout(ctx, limit)
 				defer tcancel()
 				rp, err := requestreply.SendWithReply[c18Result](tctx, bus, backend, cmd)
 				c.sendErr = nil
